@@ -137,6 +137,11 @@ def judge(prop, r, cfg):
             out.append(("mext", "mdspan extent()/stride() differ from its own mapping's", True))
     elif prop == "C14":
         pass
+    elif prop == "C15":
+        for f in sorted(md):
+            if differs(f):
+                out.append((f, "in configuration %s %s is %s, every configuration must give %s" % (cfg, f, str(im.get(f))[:160], str(md.get(f))[:160]), True))
+                break
     return out
 
 
@@ -162,6 +167,8 @@ def collect(rep, prop, tier, seed, exe, configs=None, replay=None):
     """run the mapping family for `prop`, record violations in rep, return the coverage facts"""
     rng = random.Random(seed * 7919 + 17)
     if configs is None:
+        configs = pick_configs(None)
+    if configs is None:
         configs = list(QUICK_CFGS if tier == "quick" else THOROUGH_CFGS)
         if prop == "C14":
             configs = SAN_CFGS if tier == "quick" else SAN_CFGS + ["gcc23", "clang17"]
@@ -180,6 +187,10 @@ def collect(rep, prop, tier, seed, exe, configs=None, replay=None):
         configs = [rp["config"]]
     else:
         insts = mapgen.gen_insts(rng, tier)
+        if is_scaled():
+            insts = sorted(rng.sample(insts, scaled(len(insts))), key=lambda i: i.id)
+            for n_, i_ in enumerate(insts):
+                i_.id = n_
         cases = mapgen.gen_cases(rng, insts, tier)
         # corpus first: minimised failures of earlier runs
         corp = []
